@@ -661,6 +661,167 @@ theorem export_key_delivery_files (args : Args) (legacy₁ legacy₂ : Bool) (fi
 
 end C09
 
+-- ====================================================================== 4b. C09, TLS-only captures: secrets blocks anywhere
+section C09Anywhere
+open TLX.Keylog TLX.Ingest
+
+def isPkt : Container.Item → Bool
+  | .pkt .. => true
+  | .dsb _ => false
+
+/-- the texts of the secrets blocks of a capture, in order -/
+def dsbTexts (its : List Container.Item) : List Bytes := its.filterMap fun
+  | .dsb s => some s
+  | .pkt .. => none
+
+/-- the key log the blocks of a capture contribute -/
+def blockKeys (its : List Container.Item) : List Keylog.Key := ((dsbTexts its).map dsbKeysOfBytes).flatten
+
+theorem one_dsb_ascii (c : Bool) (tag : Nat) (s : Bytes) (h : s.all (· < 0x80) = true) :
+    one c tag (.dsb s) = .ok (.dsb (dsbKeysOfBytes s), none) := by
+  simp only [one, decodeAscii, h, if_true]
+  rfl
+
+theorem one_pkt_frame (c : Bool) (tag : Nat) (t : Container.Time) (b : Bytes) (hm : isMinusOne t = false)
+    (x : Item Keylog.Key) (oi : Option Pipeline.Info) (h : one c tag (.pkt t b) = .ok (x, oi)) : ∃ p, x = .frame p := by
+  simp only [one, hm, Bool.false_eq_true, if_false] at h
+  cases hf : framePkt c tag (Container.usOfFloat t.toFloat) b with
+  | error e => rw [hf] at h; cases h
+  | ok v =>
+    obtain ⟨p, i⟩ := v
+    rw [hf] at h
+    simp only [Except.ok.injEq, Prod.mk.injEq] at h
+    exact ⟨p, h.1.symm⟩
+
+/-- removing ASCII secrets blocks from a capture the read loop fails on: it fails in the same way -/
+theorem go_filter_error (c : Bool) (keep : Container.Item → Bool) (its : List Container.Item)
+    (hdrop : ∀ it ∈ its, keep it = false → ∃ s, it = .dsb s ∧ s.all (· < 0x80) = true) :
+    ∀ tag tag' e, go srcHexClass c tag its = .error e → go srcHexClass c tag' (its.filter keep) = .error e := by
+  induction its with
+  | nil => intro tag tag' e h; simp [go] at h
+  | cons it rest ih =>
+    intro tag tag' e h
+    have ih' := ih (fun x hx => hdrop x (by simp [hx]))
+    rw [go_cons] at h
+    cases hk : keep it with
+    | false =>
+      obtain ⟨s, rfl, hs⟩ := hdrop it (by simp) hk
+      rw [one_dsb_ascii c tag s hs] at h
+      simp only at h
+      simp only [List.filter_cons, hk, Bool.false_eq_true, if_false]
+      cases hg : go srcHexClass c (tag + 1) rest with
+      | ok w => rw [hg] at h; cases h
+      | error e' =>
+        rw [hg] at h
+        simp only [Except.error.injEq] at h
+        subst h
+        exact ih' (tag + 1) tag' e' hg
+    | true =>
+      simp only [List.filter_cons, hk, if_true]
+      rw [go_cons, one_tag_indep c tag tag']
+      cases h1 : one c tag it with
+      | error e' => rw [h1] at h; simp only [Except.map]; exact h
+      | ok v =>
+        obtain ⟨x, oi⟩ := v
+        rw [h1] at h
+        simp only [Except.map] at h ⊢
+        cases hg : go srcHexClass c (tag + 1) rest with
+        | ok w => rw [hg] at h; cases h
+        | error e' =>
+          rw [hg] at h
+          simp only [Except.error.injEq] at h
+          subst h
+          rw [ih' (tag + 1) (tag' + 1) e' hg]
+
+/-- what the loop makes of a capture without `ts == -1` packets: the packet blocks become the frames, the secrets blocks
+    become the key items -/
+theorem go_split (c : Bool) (its : List Container.Item)
+    (hnm : ∀ t b, Container.Item.pkt t b ∈ its → isMinusOne t = false) :
+    ∀ tag X IS, go srcHexClass c tag its = .ok (X, IS) →
+      framesOf (keptOf isPkt its X) = framesOf X ∧ dsbOnly (keptOf isPkt its X) = [] ∧ dsbOnly X = blockKeys its := by
+  induction its with
+  | nil =>
+    intro tag X IS h
+    simp only [go, Except.ok.injEq, Prod.mk.injEq] at h
+    rw [← h.1]
+    exact ⟨rfl, rfl, rfl⟩
+  | cons it rest ih =>
+    intro tag X IS h
+    rw [go_cons] at h
+    cases h1 : one c tag it with
+    | error e => rw [h1] at h; cases h
+    | ok v =>
+      obtain ⟨x, oi⟩ := v
+      rw [h1] at h
+      simp only at h
+      cases hg : go srcHexClass c (tag + 1) rest with
+      | error e => rw [hg] at h; cases h
+      | ok w =>
+        obtain ⟨Xr, ISr⟩ := w
+        rw [hg] at h
+        simp only [Except.ok.injEq, Prod.mk.injEq] at h
+        rw [← h.1]
+        obtain ⟨i1, i2, i3⟩ := ih (fun t b hb => hnm t b (by simp [hb])) (tag + 1) Xr ISr hg
+        cases it with
+        | dsb s =>
+          have hx : ∃ k, x = .dsb k ∧ k = dsbKeysOfBytes s := by
+            simp only [one] at h1
+            cases hd : decodeAscii s with
+            | error e => rw [hd] at h1; cases h1
+            | ok str =>
+              rw [hd] at h1
+              simp only [Except.ok.injEq, Prod.mk.injEq] at h1
+              refine ⟨_, h1.1.symm, ?_⟩
+              unfold decodeAscii at hd
+              split at hd
+              · cases hd; rfl
+              · cases hd
+          obtain ⟨k, rfl, rfl⟩ := hx
+          refine ⟨?_, ?_, ?_⟩
+          · simp only [keptOf, isPkt, Bool.false_eq_true, if_false, framesOf, List.filterMap_cons,
+              Lemmas.Export.frameOf?] at i1 ⊢
+            exact i1
+          · simp only [keptOf, isPkt, Bool.false_eq_true, if_false, i2]
+          · simp only [dsbOnly, List.flatMap_cons] at i3 ⊢
+            rw [i3]
+            simp [blockKeys, dsbTexts, List.filterMap_cons]
+        | pkt t b =>
+          obtain ⟨p, rfl⟩ := one_pkt_frame c tag t b (hnm t b (by simp)) x oi h1
+          refine ⟨?_, ?_, ?_⟩
+          · simp only [keptOf, isPkt, if_true, framesOf, List.filterMap_cons, Lemmas.Export.frameOf?] at i1 ⊢
+            rw [i1]
+          · simp only [keptOf, isPkt, if_true, dsbOnly, List.flatMap_cons] at i2 ⊢
+            rw [i2]; rfl
+          · simp only [dsbOnly, List.flatMap_cons] at i3 ⊢
+            rw [i3]
+            simp [blockKeys, dsbTexts, List.filterMap_cons]
+
+theorem sameSecrets_append {k₁ k₂ : List Keylog.Key} (h : SameSecrets k₁ k₂) (z : List Keylog.Key) :
+    SameSecrets (k₁ ++ z) (k₂ ++ z) := by
+  intro cr
+  have := h cr
+  simp only [findSessionSecrets, List.filter_append] at this ⊢
+  rw [this]
+
+/-- no UDP frame: nothing goes to `handle_quic_packet` -/
+theorem quicView_no_udp (o : Opts) (xs : List (Item Keylog.Key)) (h : ∀ p, Item.frame p ∈ xs → p.l4 ≠ .udp) :
+    ∀ kl, quicView o kl xs = [] := by
+  induction xs with
+  | nil => intro kl; rfl
+  | cons it xs ih =>
+    intro kl
+    have ih' := ih (fun p hp => h p (by simp [hp]))
+    simp only [quicView]
+    cases hc : classify o it with
+    | keys ks => exact ih' _
+    | tls q => exact ih' _
+    | ignore w => exact ih' _
+    | quic q b0 r =>
+      obtain ⟨rfl, hu⟩ := Lemmas.Export.classify_quic o it q b0 r hc
+      exact absurd hu (h q (by simp))
+
+end C09Anywhere
+
 -- ====================================================================== 5. C11 at the level of the files
 section C11
 open TLX.Ingest
